@@ -306,6 +306,21 @@ def specs():
                          ("TRIAD", lambda: F.TRIAD(), None), ("TRIAD[quaternion]", lambda: F.TRIAD(), lambda X, x, y: X.estimate(x, y, "quaternion")),
                          ("AQUA", lambda: F.AQUA(), None)):
         same(nm + ".estimate", mk_, est or (lambda X, x, y: X.estimate(x, y)), lambda a: list(a.am()), array_class=False)
+    # update steps of the filters that carry no estimate between calls (everything a step needs comes in through its arguments and the constructor's
+    # options): the same step asked again of the same object returns the same attitude.  Mahony (integral bias), EKF and UKF (covariance) are stateful
+    # by design and not listed.  Accelerometer magnitudes range over several g, so AQUA's adaptive gain is in play.
+    for nm, mk_, step, fac in (
+            ("Madgwick.updateIMU", lambda: F.Madgwick(), lambda X, q, g, x: X.updateIMU(q, g, x), qga),
+            ("Madgwick.updateMARG", lambda: F.Madgwick(), lambda X, q, g, x, y: X.updateMARG(q, g, x, y), qgam),
+            ("AQUA.updateIMU", lambda: F.AQUA(), lambda X, q, g, x: X.updateIMU(q, g, x), qga),
+            ("AQUA.updateMARG", lambda: F.AQUA(), lambda X, q, g, x, y: X.updateMARG(q, g, x, y), qgam),
+            ("AQUA[adaptive].updateIMU", lambda: F.AQUA(adaptive=True), lambda X, q, g, x: X.updateIMU(q, g, x), qga),
+            ("AQUA[adaptive].updateMARG", lambda: F.AQUA(adaptive=True), lambda X, q, g, x, y: X.updateMARG(q, g, x, y), qgam),
+            ("Fourati.update", lambda: F.Fourati(), lambda X, q, g, x, y: X.update(q, g, x, y), qgam),
+            ("ROLEQ.update", lambda: F.ROLEQ(), lambda X, q, g, x, y: X.update(q, g, x, y), qgam),
+            ("AngularRate.update", lambda: F.AngularRate(), lambda X, q, g: X.update(q, g), lambda a: [a.qu(), a.v(s=0.1)]),
+            ("AngularRate.update[series]", lambda: F.AngularRate(), lambda X, q, g: X.update(q, g, method="series", order=3), lambda a: [a.qu(), a.v(s=0.1)])):
+        same(nm, mk_, step, fac, array_class=False)
     _objs = {}
 
     def sensors_obj():
